@@ -121,3 +121,12 @@ claim("C10", "TLC trace validation of file content and reloaded crystals for all
       "occupancies. Every tabulated setting is exercised in all three formats in both tiers, through the string functions and save()/load() on real files, with crystals "
       "built in memory or themselves loaded from CIF/.res. MC_SpaceGroup (shared with C02) establishes the reduce/expand round trip on the exported table.",
       "Coordinates projected to the grid (residual <= 1e-8); cells compared at 1e-6 (2e-6 for .res); occupancy is not demanded for .res (the dialect chmpy writes has no such column); the reference is the crystal actually written.")
+
+claim("C17", "TLC enumeration of the complete spelling domain from an independent symbol table + trace validation of every real lookup",
+      "Element.tla carries its own periodic table (letter codes of the 103 symbols), generates every spelling a user may type (letter cases, padding, number strings, "
+      "atom-site labels = symbol + digits + suffix, and every 1-2 letter string that is no symbol) and states what each must resolve to; MC_Element checks the table and "
+      "grammar at design level (distinct symbols, unambiguous spellings, rejected strings never coincide with accepted ones, Less is a strict total order with carbon "
+      "first) and prints the whole finite domain. Every printed spelling goes through Element[...], from_string and from_label; all integers -200..300 through Element[n], "
+      "from_atomic_number and a numpy integer; the library's own name of every Z in three letter cases; radii/mass by four routes; random multisets through sorted() and "
+      "chemical_formula. TLC validates each observation against Element!Lookup / SortSpec / Formula.",
+      "Names and numeric columns are the library's own data (consistency across routes only); 'D' is deliberately hydrogen; quick tier enumerates every third rejected code, thorough all.")
